@@ -211,6 +211,11 @@ func checkCase(c *core.Ctx, cs Case) {
 				c.Fail("", cs, "run %d: entry package %s was not processed", ri+1, d)
 			}
 		}
+		// with All the imported package of the module is processed as well (known from the module model, not from
+		// who called back); only a later run may find it cached
+		if r.All && (ri == 0 || r.Force) && !processed[lay.Dep] {
+			c.Fail("", cs, "run %d (%+v): All is set but the imported package %s of the module was not processed (its stale outputs stay, its generators never run)", ri+1, r, lay.Dep)
+		}
 		if processed[lay.Other] || (!r.All && processed[lay.Dep]) || (lay.Nested != "" && processed[lay.Nested+"/np"]) {
 			c.Fail("", cs, "run %d: a package that was not selected was processed: %v", ri+1, keys(processed))
 		}
